@@ -80,23 +80,31 @@ theorem GoAway.goAwayNow_cases (g : GoAway) (f : GoAwayFrame) :
 
 -- ===================================================================== DynConnection::go_away
 
+/-- `Recv::go_away(id)` with `id ≤ max_stream_id`: the `assert!` holds, only `max_stream_id` changes -/
+theorem recvGoAway_ok (s : Streams) (id : Nat) (h : id ≤ (view s).rmax) :
+    s.recvGoAway id = s.modRecv (fun r => { r with maxStreamId := id }) ∧
+    view (s.recvGoAway id) = { view s with rmax := id } ∧ (s.recvGoAway id).panicked = s.panicked ∧
+    (s.recvGoAway id).store = s.store ∧ (s.recvGoAway id).counts = s.counts := by
+  have h' : s.recv.maxStreamId ≥ id := h
+  unfold Streams.recvGoAway
+  rw [if_pos h']
+  exact ⟨rfl, rfl, rfl, rfl, rfl⟩
+
 /-- `DynConnection::go_away(id, e)` at a call site where `last_processed_id ≤ id ≤ max_stream_id`
     and `id` is not above the announced id: neither `assert!` fires (the streams are exactly
     `recv.go_away(id)`, no panic recorded), the GOAWAY(id, e) is queued, the invariant holds again -/
-theorem dynGoAway_inv (c : Conn) (id : Nat) (e : Reason) (h : GoAwayInv c)
+theorem dynGoAway_inv (c : Conn) (id : Nat) (e : Reason)
     (h1 : (view c.streams).lpi ≤ id) (h2 : id ≤ (view c.streams).rmax)
-    (h3 : ∀ ga, c.goAway.goingAway = some ga → id ≤ ga.lastProcessedId)
-    (hv : view (c.streams.recvGoAway id) = { view c.streams with rmax := id })
-    (hnp : (c.streams.recvGoAway id).panicked = c.streams.panicked) :
+    (h3 : ∀ ga, c.goAway.goingAway = some ga → id ≤ ga.lastProcessedId) :
     GoAwayInv (c.dynGoAway id e) ∧ (c.dynGoAway id e).streams = c.streams.recvGoAway id ∧
     (c.dynGoAway id e).goAway.pending = some { lastStreamId := id, reason := e } ∧
     (c.dynGoAway id e).goAway.goingAway = some { lastProcessedId := id, reason := e } ∧
     (c.dynGoAway id e).goAway.closeNow = c.goAway.closeNow ∧
     (c.dynGoAway id e).streams.panicked = c.streams.panicked := by
+  obtain ⟨-, hv, hnp, -, -⟩ := recvGoAway_ok c.streams id h2
   have hok : (c.goAway.goAway { lastStreamId := id, reason := e }).2 = true :=
     (GoAway.goAway_ok_iff _ _).2 h3
-  have heq : c.dynGoAway id e = { c with streams := c.streams.recvGoAway id,
-      goAway := (c.goAway.goAway { lastStreamId := id, reason := e }).1 } := by
+  have heq : c.dynGoAway id e = { c with streams := c.streams.recvGoAway id, goAway := (c.goAway.goAway { lastStreamId := id, reason := e }).1 } := by
     unfold Conn.dynGoAway
     dsimp only
     rw [if_pos hok]
